@@ -44,6 +44,12 @@ func daemonMain() {
 	os.WriteFile(tmp, []byte(fmt.Sprintf("%d %s", os.Getpid(), os.Getenv("C20_TOKEN"))), 0o644)
 	os.Rename(tmp, marker)
 	daemon.Done()
+	// life after Done(): the launcher is going away now; an ordinary daemon logs something and carries on
+	time.Sleep(10 * time.Millisecond)
+	fmt.Fprintln(os.Stderr, "c20 daemon: started")
+	fmt.Fprintln(os.Stdout, "c20 daemon: started")
+	time.Sleep(5 * time.Millisecond)
+	fmt.Fprintln(os.Stderr, "c20 daemon: still here")
 	os.WriteFile(filepath.Join(dir, fmt.Sprintf("after-done.%d", os.Getpid())), []byte("x"), 0o644)
 	time.Sleep(45 * time.Second) // idle; the harness kills us long before
 }
@@ -245,8 +251,23 @@ func runCase(k kase) string {
 			return fmt.Sprintf("launch #%d: the daemon (pid %d) is a child of the test process", i, r.pid)
 		}
 	}
-	// the daemons keep running after the caller has gone
-	time.Sleep(30 * time.Millisecond)
+	// the daemons keep running after the caller has gone: each one gets past its first output after Done()
+	for i, r := range results {
+		deadline := time.Now().Add(3 * time.Second)
+		for {
+			if _, err := os.Stat(filepath.Join(dir, fmt.Sprintf("after-done.%d", r.pid))); err == nil {
+				break
+			}
+			if !alive(r.pid) {
+				return fmt.Sprintf("launch #%d: the daemon (pid %d) died after Launch returned, before it got past its first output after Done()", i, r.pid)
+			}
+			if time.Now().After(deadline) {
+				return fmt.Sprintf("harness: daemon %d is alive but did not write its after-done marker within 3s", r.pid)
+			}
+			time.Sleep(2 * time.Millisecond)
+		}
+	}
+	time.Sleep(20 * time.Millisecond)
 	for i, r := range results {
 		if k.childCaller && alive(r.callerPid) {
 			return fmt.Sprintf("harness: caller child %d still alive", r.callerPid)
